@@ -181,6 +181,17 @@ fn campaign(a: &Args, rng: &mut Rng, rep: &mut Report, sink: &mut Sink) {
             }
         }
         "C11" => {
+            if let Ok(rd) = std::fs::read_dir("/verif/corpus") {
+                let mut files: Vec<_> = rd.flatten().map(|e| e.path()).filter(|p| p.extension().map_or(false, |x| x == "game")).collect();
+                files.sort();
+                for f in files {
+                    if let Ok(t) = std::fs::read_to_string(&f) {
+                        for s in [sym::Sym::Mirror, sym::Sym::Swap, sym::Sym::Both] {
+                            sym::lockstep_game(&t, s, rng, rep);
+                        }
+                    }
+                }
+            }
             for k in 0..120 * sc {
                 let (b, side) = random_position(rng, [3, 6, 12, 24][k % 4], true, k % 2 == 0);
                 for s in [sym::Sym::Mirror, sym::Sym::Swap, sym::Sym::Both] {
